@@ -209,6 +209,9 @@ func genC11(seed uint64, tier string) *Scenario {
 					}
 				} else {
 					op = Op{Kind: findKinds[r.n(len(findKinds))], Re: heavyRe, In: InputSpec{Unit: heavyFam.In.Unit, Rep: 1 + r.n(4)}, N: -1, Repl: repls[r.n(len(repls))], In2: lit("a")}
+					if heavyFam.Probe != "" && r.chance(2, 3) {
+						op.In = lit(heavyFam.Probe)
+					}
 				}
 			case own >= 0 && x < 9:
 				op = genOp(r, own, ownPat, true)
